@@ -50,8 +50,13 @@ def d1_list(facts, rep):
         ts = calls_named(fn, ('try_set_next',))
         ok = len(sn) == 1 and len(ts) == 1 and every_path_passes(fn, 'entry', lambda p, e: p == sn[0][0], end=ts[0][0])[0]
         if ok:
-            ok = fn.n(fn.strip(sn[0][2].get('obj', -1))).get('n') == 'new_node' and fn.n(fn.strip(ts[0][2].get('obj', -1))).get('n') == 'prev_node' and \
-                fn.n(fn.strip(ts[0][2]['a'][1])).get('n') == 'new_node' and \
+            # roles by data flow: the node that gets its next pointer set is the node that the CAS installs, the receiver of the
+            # CAS is a different parameter (the predecessor), and both use the same expected successor
+            linked = fn.n(fn.strip(sn[0][2].get('obj', -1)))
+            pred = fn.n(fn.strip(ts[0][2].get('obj', -1)))
+            installed = fn.n(fn.strip(ts[0][2]['a'][1]))
+            ok = linked.get('k') == 'var' and installed.get('k') == 'var' and linked.get('v') == installed.get('v') and \
+                pred.get('k') == 'var' and pred.get('v') != linked.get('v') and \
                 fn.path(sn[0][2]['a'][0]) == fn.path(ts[0][2]['a'][0])
         rep.ob('D1', 'K4', fn, 'try_insert: new_node->set_next(next) precedes prev->try_set_next(next, new_node)', ok,
                'the node becomes reachable before its next pointer is set (or the CAS compares against a different successor): a '
@@ -118,7 +123,10 @@ def d1_list(facts, rep):
         ok2 = bool(fa) and all(dominated_by_edges(fn, p, succ)[0] for p, _ in fa)
         rep.ob('D1', 'K4', fn, 'the element count is incremented only after the node was linked', ok2, 'my_size changed on a path without a successful CAS')
         # a created node is never dropped: every return after creation either reports success or returns the node
-        cr = [c for c in calls(fn) if c[2].get('op') == '()' and fn.n(fn.strip(c[2].get('obj', -1))).get('n') == 'create_insert_node']
+        # the node factory is the functor parameter; the created node is the variable initialised from its call
+        from engine.rules import vars_initialised_from
+        cr = [c for c in calls(fn) if c[2].get('op') == '()' and 'param' in fn.n(fn.strip(c[2].get('obj', -1)))]
+        created = vars_initialised_from(fn, [c[1] for c in cr])
         rets = [(p, s, nd) for p, s, nd in fn.stmt_elems(('return',))]
         ok3 = True
         for p, s, nd in rets:
@@ -128,7 +136,7 @@ def d1_list(facts, rep):
             args = v.get('a', []) if v.get('k') in ('ctor', 'initlist') else []
             if len(args) >= 3:
                 inserted = fn.cv(args[2])
-                remaining_is_node = fn.n(value_root(fn, args[0])).get('n') == 'new_node'
+                remaining_is_node = fn.n(value_root(fn, args[0])).get('v') in created and fn.n(value_root(fn, args[0])).get('k') == 'var'
                 ok3 = ok3 and (inserted == 1 or remaining_is_node)
         rep.ob('D1', 'K3', fn, 'a node that was created but not inserted is handed back to the caller', ok3,
                'the rejected node is neither inserted nor returned: it leaks, or the caller reports a wrong result')
@@ -212,7 +220,9 @@ def d3_skiplist(facts, rep):
         sn = calls_named(fn, ('set_next',))
         for pos, op, lvl, on in cas:
             want = fn.path(on['a'][0]) if on.get('a') else '?'
-            pre = [c for c in sn if c[2].get('a') and fn.path(c[2]['a'][0]) == want and fn.n(fn.strip(c[2].get('obj', -1))).get('n') == 'new_node']
+            inserted = fn.n(fn.strip(op['val']))       # the node that the CAS installs
+            pre = [c for c in sn if c[2].get('a') and fn.path(c[2]['a'][0]) == want and
+                   fn.n(fn.strip(c[2].get('obj', -1))).get('k') == 'var' and fn.n(fn.strip(c[2].get('obj', -1))).get('v') == inserted.get('v')]
             ok = bool(pre) and every_path_passes(fn, 'entry', lambda p, e: p in set(c[0] for c in pre), end=pos)[0]
             # re-done in every retry: from the failing CAS back to itself a set_next must be passed
             reached, ex, par = fn.walk(pos, stop_elem=lambda p, e: p in set(c[0] for c in pre))
